@@ -62,9 +62,13 @@ BOUNDED_PARTS = {
     'C19': ['c19_blocked_and_frozen'],
 }
 
+STATIC_PARTS = {
+    'C19': [('pyvc.frames', 'c19_static')],
+}
+
 LEVELS = {
     'C01': 'other', 'C03': 'other', 'C04': 'other', 'C05': 'other', 'C07': 'other', 'C08': 'other',
-    'C02': 'exploration', 'C06': 'exploration', 'C16': 'exploration', 'C17': 'exploration', 'C19': 'exploration',
+    'C02': 'exploration', 'C06': 'exploration', 'C16': 'exploration', 'C17': 'exploration', 'C19': 'other',
     'C09': 'exploration', 'C10': 'exploration', 'C11': 'exploration', 'C18': 'other',
 }
 
